@@ -741,6 +741,9 @@ class TJPTransformer(Transformer[Any, Any]):
         if items and isinstance(items[0], dict):
             # It's a workinghours_spec dict - wrap it as a tuple
             return ("workinghours", items[0])
+        if items and isinstance(items[0], str) and len(items) > 1:
+            # leaves <type> <date> [- <date>]: same shape as a resource's leaves
+            return ("leaves", {"type": items[0], "start": items[1], "end": items[2] if len(items) > 2 else items[1]})
         return items[0] if items else None
 
     # Reports
